@@ -9,3 +9,4 @@ ASSUMPTIONS = ["A-LIB: numpy.linalg.inv / eig"]
 from vt.contracts import iface_nll  # noqa: F401,E402
 from vt.contracts import errnum  # noqa: F401,E402
 from vt.contracts import fitfrac_sym  # noqa: F401,E402
+from vt.contracts import params_trans_sym  # noqa: F401,E402
